@@ -985,6 +985,7 @@ def predict(desc):
     for sn, sd in exp["spaces"].items():
         space(sd, ("spaces", sn))
     unsafe.extend(ref_override_order(desc))
+    unsafe.extend(bases_order(desc))
 
     # derived members are not written; the reader derives them again from the definitions it has read.
     # Expected = the (predicted) definition, first base in the linearisation that defines the name.
@@ -1063,6 +1064,31 @@ def ref_override_order(desc):
                                 v[2] == y or v[2].startswith(y + ".")):
                             found.add("C04-relref-override-order")
     return sorted(found)
+
+
+def bases_order(desc):
+    """C04-bases-order: the reader adds the direct bases space by space in tree order; an intermediate graph
+    (later spaces still without their bases) need not have a C3 linearisation although the complete one has.
+    Decided by the Lean model (`mxdriver serial`, op `hk`, hypothesis `NoBasesOrderConflict`) on the skeleton of
+    the description (names and direct bases only)."""
+    def has_bases(sd):
+        return bool(sd["direct_bases"]) or any(has_bases(x) for x in sd["spaces"].values())
+    if not any(has_bases(sd) for sd in desc["spaces"].values()):
+        return []
+    from .. import serialworld as sw
+
+    def space(name, sd):
+        return sw.sx("space", sw.enc(name), "N", "N", "N",
+                     sw.sx("bases", *[sw.sx("p", *[sw.enc(x) for x in b.split(".")]) for b in sd["direct_bases"]]),
+                     "(cells)", "(refs)", "(dyn)", "(dinp)",
+                     sw.sx("spaces", *[space(n, x) for n, x in sd["spaces"].items()]))
+    text = sw.sx("model", sw.enc("M"), "N", "F", "(refs)",
+                 sw.sx("spaces", *[space(n, sd) for n, sd in desc["spaces"].items()]))
+    try:
+        got = core.run_driver("serial", ["hk " + text])[0]
+    except Exception:
+        return []
+    return ["C04-bases-order"] if " bases=0" in got else []
 
 
 def desc_at(desc, path):
@@ -1255,7 +1281,8 @@ def read_and_compare(path, label, desc0, vals0, hist, out, stats, name="M", expe
     except Exception as e:
         k = err_kind(e)
         stats["read-error:" + k] = stats.get("read-error:" + k, 0) + 1
-        explained = [u for u in unsafe if k == "Value"]     # the two *-override-order findings raise ValueError
+        # the two *-override-order findings raise ValueError, C04-bases-order TypeError (no C3 linearisation)
+        explained = [u for u in unsafe if (k == "Type") == (u == "C04-bases-order") and k in ("Value", "Type")]
         if explained:
             out.fail("a model written without error cannot be read back from the %s (%s): %s" % (
                 label, k, explained[0]), hist, key=explained[0])
@@ -1755,6 +1782,21 @@ def run(ctx, out):
         if len(samples) < 3 and tag.startswith("gen:"):
             samples.append([json.dumps(o) for o in prog["ops"][:40]])
 
+    # the statement-level model of writer and reader (Kernels/Serial*.lean) against the real files
+    from .. import serialworld
+    n_serial = ctx.n(28, 600)
+    import time as _time
+    t_serial = _time.time()
+    sprogs = [(t, p) for t, p in programs if t.startswith("gen:")][:n_serial]
+    sprogs += [(t, p) for t, p in programs if t.startswith("trigger:") and t.endswith(":0")]
+    sprogs += [(t, p) for t, p in programs if t.startswith("corpus:") and "steps" not in p]
+    sprogs += [("serial:" + t, p) for t, p in serialworld.extra_programs()]
+    ev_serial = 0
+    for tag, prog in sprogs:
+        ev_serial += serialworld.check_program(prog, out, stats, tag)
+    ev += ev_serial
+    stats["serial:seconds"] = round(_time.time() - t_serial, 1)
+
     # histories of writes to ONE target path: (edit*, write)+ with every option that decides what is on disk
     from .. import c04hist
     ev_hist = c04hist.run_batch(ctx, out, stats)
@@ -1773,13 +1815,17 @@ def run(ctx, out):
         "writes_producing_fewer_files_than_the_target_held": {
             k.split(":", 2)[2]: v for k, v in sorted(stats.items()) if k.startswith("hist:fewer-files-than-before:")},
         "save_step_lines_compared": ev_hist,
+        "serial_models_compared": stats.get("serial:models", 0),
+        "serial_statement_tokens_compared": stats.get("serial:statement-tokens-compared", 0),
+        "serial_description_tokens_compared": stats.get("serial:description-tokens-compared", 0),
         "cells_values_compared": stats.get("evaluations", 0),
         "input_distribution": {k: stats[k] for k in sorted(stats)},
     })
     out.assumptions.append(
-        "the whole-model round trip is checked on the implementation only (oracle); the Lean theorems cover the "
-        "relative-address codec, the docstring codec, the dispatch tables and the save step at the level of file "
-        "names (the target after a write holds exactly the entries of that write, whatever was there before)")
+        "read_write_round_trip_partial is about the statement-level model of ModelWriter / ModelReader "
+        "(Kernels/Serial*.lean); it is tied to the code by comparing, for every generated model, the statements and "
+        "data files modelx writes with the model's `write`, and the model modelx reads back with the model's `read` "
+        "of the real files (member order inside a space, pickle bytes, values of cells: oracle only)")
 
 
 def search(ctx, out, extra):
@@ -1803,6 +1849,9 @@ def replay(ctx, payload, out):
                 h = u["detail"]["history"]
     if isinstance(h, dict) and "ops" in h:
         run_program(h, out, stats, chain=1)
+        if "steps" not in h:
+            from .. import serialworld
+            serialworld.check_program(h, out, stats, "replay")
         return
     if isinstance(h, list):
         # codec histories: re-evaluate the property on the implementation
